@@ -7,6 +7,7 @@ package main
 
 import (
 	"bytes"
+	"encoding/base64"
 	"encoding/json"
 	"fmt"
 	"math"
@@ -331,6 +332,15 @@ var c05Values = []string{`null`, `true`, `false`, `0`, `1`, `-1`, `12`, `1.5`, `
 
 // valueFor picks a JSON value that the column's input format (and the output format) will
 // mostly accept: a differential check sees little if most lines are rejected.
+// longBase64: the canonical base64 text of 5000 bytes (beyond any 4 KiB block size), as a JSON string
+var longBase64 = func() string {
+	b := make([]byte, 5000)
+	for i := range b {
+		b[i] = byte(i * 7)
+	}
+	return `"` + base64.StdEncoding.EncodeToString(b) + `"`
+}()
+
 func valueFor(r *rng, in, out colDesc) string {
 	if r.chance(1, 7) {
 		return pick(r, c05Values)
@@ -353,7 +363,7 @@ func valueFor(r *rng, in, out colDesc) string {
 	case "binary":
 		return pick(r, []string{`"AQ=="`, `"AQAAAA=="`, `"AQAAAAAAAAA="`, `"aGVsbG8="`, `"MTI="`, `"AAE="`, `null`,
 			// valid but non-canonical base64, base64 of base64, the float32 whose shortest text double-rounds
-			`"QR=="`, `"WVdKalpBPT0="`, `"YWJjZA=="`, `"/UOuFQ=="`})
+			`"QR=="`, `"WVdKalpBPT0="`, `"YWJjZA=="`, `"/UOuFQ=="`, longBase64})
 	case "date":
 		return pick(r, []string{`"2021-09-24"`, `"0001-01-01"`, `"9999-12-31"`, `1632518460`, `"2021-09-24T21:21:00Z"`, `null`})
 	case "datetime":
